@@ -78,6 +78,14 @@ def plan(seed, subbatch):
             members = [mm for mm in members
                        if not (member_name(dict(mm, common=dict(mm["common"], timeframe=tf))) in names2
                                or names2.add(member_name(dict(mm, common=dict(mm["common"], timeframe=tf)))))]
+    fx = sub_rng(seed, "features")
+    if kind == "hexital":
+        if fx.random() < 0.15:
+            hexcfg["candlestick_type"] = "HA"
+        if tf and fx.random() < 0.15:
+            hexcfg["timeframe_fill"] = True
+    elif fx.random() < 0.15:
+        members[0]["common"]["candlestick_type"] = "HA"
     n = planlib.pick_n(cfg, (2, 12), (8, 50), (30, 120))
     lifespan = None
     if cfg.random() < 0.2:
